@@ -13,7 +13,7 @@ CHECKS = {
          "BFS over all histories (depth 10 / 12) of 1..2 adversarial peers (correct, bit-flipped, mis-indexed, shifted, short/long, duplicated, unrequested blocks; choke; close; reset) plus an observer that requests data, at most 3 (quick) / 4 (thorough) dishonest events per history, every tie-break of the piece chooser enumerated. In every reachable state: every *.piece file hashes to its name and to a piece of the torrent, Have implies a stored verified file, every Have/Bitfield/Piece frame written refers to stored verified data and carries the right bytes, output files only from complete verified data, no live task sits on a fully assembled piece, every Reserved status is backed by a live unchoking peer that is fetching it. Two full-session scenarios borrowed from C02 (a host re-listed by the tracker under a new peer id while its old connection lives; two seeders with held-back broadcasts) are run with the storage invariants only.",
          "payload bytes abstracted to per-block tags in the state key; 2-piece torrent (16387 B + 5 B); bounds as stated in the evidence", "DESIGN.md C01"),
  "C06": ("model_checking", "exhaustive enumeration of (message stream, segmentation into reads, ending) triples against the real Connection::recv_frame polled by hand, reference stream decoder as oracle; plus exhaustive undecodable/closed endings inside the real connection task", "E-SEG + E-SYS",
-         "Every stream of <=2 (quick) / <=3 (thorough) messages over a 16-symbol alphabet (valid, unknown ids, wrong fixed lengths, oversized, bad protocol strings, 16 KiB and maximal frames) x every segmentation (all 2^(n-1) for short streams, all subsets of <=2/3 cuts from a cut-point set otherwise) x {open, EOF, truncation points}: frames delivered after each read equal the reference decoding of the delivered prefix (nothing complete is withheld, unknown ids skipped), no panic, the buffer is always a proper frame prefix <= one maximal frame, undecodable or truncated streams raise an error once the offending message is complete. E-SYS: the same endings in a real PeerHandler::run() task must end the task and make the manager drop the peer in that very step, without any timer.",
+         "Every stream of <=2 (quick) / <=3 (thorough) messages over a 20-symbol alphabet (valid, unknown ids, wrong fixed lengths, variable-length kinds shorter than their fixed part, oversized, bad protocol strings, 16 KiB and maximal frames) x every segmentation (all 2^(n-1) for short streams, all subsets of <=2/3 cuts from a cut-point set otherwise) x {open, EOF, truncation points}: frames delivered after each read equal the reference decoding of the delivered prefix (nothing complete is withheld, unknown ids skipped), no panic, the buffer is always a proper frame prefix <= one maximal frame, undecodable or truncated streams raise an error once the offending message is complete. E-SYS: the same endings in a real PeerHandler::run() task must end the task and make the manager drop the peer in that very step, without any timer.",
          "reference decoder harness/src/refwire.rs; id 0x54 deliberately outside the alphabet (see DESIGN.md)", "DESIGN.md C06"),
  "C08": ("model_checking", MC, "E-SYS pumped world",
          "BFS to depth 6 / 8 over a 14-symbol alphabet (good handshake, two single-bit hash corruptions, foreign peer id, wrong protocol string, wrong pstrlen, truncated handshake, 7 ordinary messages) on an outgoing and an incoming connection with the manager owning all pieces, plus all 160 single-bit hash corruptions: first written message is the own correct handshake, nothing is written on an incoming connection before a valid handshake, after a foreign handshake nothing more is written, the task ends and the manager forgets the peer, no Piece frame without a completed valid handshake.",
